@@ -127,8 +127,16 @@ class FloatEval:
         if k == "Call" and (e.get("fn") or "").split("::")[-1] in ("abs", "fabs") and len(e["a"]) == 1:
             x = self.scalar(e["a"][0])
             # |fl(t)|: same rounding depth, value and magnitude coincide (= magnitude form of t)
-            if sp.simplify(x.m - self.absform(x.v)) != 0:
-                raise AnalysisBroken("abs() of an expression with cancellation (line %s)" % e.get("l"))
+            af = self.absform(x.v)
+            if af is None or sp.simplify(x.m - af) != 0:
+                # |t| of an expression with cancellation: all that is known is 0 <= |t| <= M(t); as a term of an error bound
+                # it guarantees nothing.  An opaque non-negative symbol stands for it, so that the bound cannot be shown to
+                # be a multiple of the magnitude form.
+                if not hasattr(self, "opaque_abs"):
+                    self.opaque_abs = {}
+                sym = sp.Symbol("abs#%d" % (len(self.opaque_abs) + 1), nonnegative=True)
+                self.opaque_abs[sym] = (C.pretty(e["a"][0])[:80], e.get("l"))
+                return FNode(sym, x.m, x.k, x.e, x.deg)
             return FNode(x.m, x.m, x.k, x.e, x.deg)
         if k == "Bin" and e["op"] == "-":
             # a difference of the same component of two input points is a leaf (exact for inputs in [1,2))
@@ -635,6 +643,14 @@ def run(chk, prog):
             diffq = sp.expand(Ev - c_try * Rm)
         ratio = c_try if diffq == 0 else sp.simplify(Ev / Rm)
         n += 1
+        opq = [v for s_, v in getattr(fev, "opaque_abs", {}).items() if s_ in Ev.free_symbols]
+        if opq:
+            chk.fail("E4", "the error bound of %s is a constant times the magnitude form of the guarded expression" % adapt_name,
+                     where(fa), "the bound contains the absolute value of `%s` (line %s), an expression in which terms cancel: "
+                     "its value can be arbitrarily smaller than the sum of the magnitudes of its terms, which is what the "
+                     "rounding error of the determinant scales with; near-degenerate inputs then get a sign that is noise" %
+                     (opq[0][0], opq[0][1]), function=fa["full"], construct="error bound form")
+            continue
         chk.require(ratio.is_number and ratio > 0, "E4", "the error bound of %s is a constant times the magnitude form of "
                     "the guarded expression" % adapt_name, where(fa), "errbound / M(result) = %s is not a constant: a term of the "
                     "determinant has no counterpart in the bound (or vice versa)" % sp.factor(ratio), function=fa["full"],
